@@ -306,9 +306,52 @@ def gen_shell(rng, l=None, lmax=5, kmax=4, mmax=3, sph=None, span=2, exp_lo=0.02
                 c = rng.randint(-16, 16)
             row.append(Fraction(c, 8))
         coeffs.append(row)
+    # generalized contractions of published sets contain exact zeros: keep every column non-zero
+    if m > 1 and k > 1 and rng.random() < 0.35:
+        for col in range(m):
+            keep = rng.randrange(k)
+            for row in range(k):
+                if row != keep and rng.random() < 0.4:
+                    coeffs[row][col] = Fraction(0)
     if sph is None:
         sph = rng.random() < 0.5
     return XShell(l, coord, exps, coeffs, sph)
+
+
+def gen_basis(rng, n, lmax=3, kmax=3, mmax=3, span=2, exp_hi=None, exp_lo=0.02, bits=8, ncentres=None):
+    """A basis of n shells grouped on atoms: several shells share a centre (as in every real molecule),
+    types chosen per shell; patterns all-cartesian / all-spherical / mixed all occur."""
+    if ncentres is None:
+        ncentres = rng.randint(1, max(1, min(n, 3)))
+    centres = [[Fraction(rng.randint(-16 * span, 16 * span), 16) for _ in range(3)] for _ in range(ncentres)]
+    if ncentres > 1 and rng.random() < 0.25:
+        centres[0] = [Fraction(0)] * 3
+    mode = rng.random()
+    shells = []
+    for i in range(n):
+        c = centres[i % ncentres] if i < ncentres else rng.choice(centres)
+        sph = True if mode < 0.2 else (False if mode < 0.4 else None)
+        shells.append(gen_shell(rng, lmax=lmax, kmax=kmax, mmax=mmax, sph=sph, exp_hi=exp_hi, exp_lo=exp_lo,
+                                bits=bits, coord=list(c)))
+    rng.shuffle(shells)
+    return shells
+
+
+def gen_window_pair(rng, la, lb, lo=14.0, hi=26.0):
+    """Two compact shells far apart: min-exponent product mu*R^2 in [lo, hi] (integrals ~1e-5..1e-20 of the
+    diagonal: where a distance-based shortcut or screening error shows)."""
+    sa = gen_shell(rng, l=la, kmax=2, mmax=2, sph=False, exp_lo=0.5, exp_hi=4.0, coord=[Fraction(0)] * 3)
+    sb = gen_shell(rng, l=lb, kmax=2, mmax=2, sph=False, exp_lo=0.5, exp_hi=4.0)
+    mu = float(min(sa.exps) * min(sb.exps) / (min(sa.exps) + min(sb.exps)))
+    target = rng.uniform(lo, hi)
+    r = (target / mu) ** 0.5
+    # a direction with dyadic components
+    d = [rng.randint(-8, 8) for _ in range(3)]
+    if d == [0, 0, 0]:
+        d = [1, 2, 2]
+    nrm = sum(x * x for x in d) ** 0.5
+    sb.coord = [Fraction(round(16 * r * x / nrm), 16) for x in d]
+    return sa, sb
 
 
 # ----------------------------------------------------------------------------------------------
